@@ -74,6 +74,8 @@ def check(ctx):
     check_extreme(ctx, "best::Best", "Iterator::max", "Iterator::min")
     check_extreme(ctx, "worst::Worst", "Iterator::min", "Iterator::max")
     check_tournament(ctx, None)
+    from .common import check_population_size
+    check_population_size(ctx, "R07.3")
 
 
 def check_tournament(ctx, only_rule):
